@@ -19,18 +19,3 @@ ENGINES = [
 ]
 
 NOT_CLAIMED: dict = {}
-
-_E1_NOTE = "trusted: CPython, the harness in /verif/vf, the reference model, VirtualTimeScheduler's queue discipline (itself checked by C28/C29); bounded alphabets and timeline lengths as stated in the evidence"
-
-CHECKS = {
-    "C05": {
-        "engine": "vtx", "level": "exploration",
-        "technique": "bounded-exhaustive enumeration of (operator instance, timeline) pairs on virtual time against Python list references",
-        "text": "every listed element-wise operator, every parameter of its catalogue, every timeline of length <=N over a small alphabet (incl. None/0/False) ending in completion or error is executed on the real operator and compared value-by-value and instant-by-instant with a list reference; exhaustive within N",
-        "note": _E1_NOTE,
-    },
-}
-for _k, _v in CHECKS.items():
-    for _e in ENGINES:
-        if _e["name"] == _v["engine"]:
-            _e["serves_properties"].append(_k)
